@@ -171,10 +171,20 @@ type upstreamRec struct {
 	mu    sync.Mutex
 	reqs  []*http.Request
 	byTid map[int]*http.Request
+	fail  string // "" = answer 200; "refused" / "reset": the round trip to the upstream fails with that error
 }
 
 func (u *upstreamRec) RoundTrip(r *http.Request) (*http.Response, error) {
 	u.mu.Lock()
+	if u.fail != "" {
+		f := u.fail
+		u.reqs = append(u.reqs, r)
+		if id := tidOf(r.Context()); id != 0 {
+			u.byTid[id] = r
+		}
+		u.mu.Unlock()
+		return nil, fmt.Errorf("dial tcp upstream:8080: connect: connection %s", f)
+	}
 	u.reqs = append(u.reqs, r)
 	if id := tidOf(r.Context()); id != 0 {
 		u.byTid[id] = r
